@@ -226,7 +226,8 @@ pub mod cluster {
         let mut rows: Vec<Vec<Val>> = vec![]; let mut cuts = vec![];
         for b in &batches { let before = rows.len(); batch_rows(b, &mut rows); if rows.len() > before { cuts.push(rows.len() - before); } }
         let cat = Catalog { tables: vec![TableSpec { name: "qe_dist_partial".into(), cols, rows, cuts }] };
-        run(&cat, &final_sql, &ExecCfg::mem_batches().with_rules(Rules::Without(vec![rule.to_string()])))
+        let rules = if rule == "ALL" { Rules::None } else if rule == "NONE" { Rules::Default } else { Rules::Without(rule.split('/').map(|s| s.to_string()).collect()) };
+        run(&cat, &final_sql, &ExecCfg::mem_batches().with_rules(rules))
     }
 
     /// the plan the coordinator builds for the statement: scatter (Concat / TwoPhase / TopN over one table) or gather
@@ -374,6 +375,11 @@ pub fn main(o: &Opts) {
         let i = run_case(&case);
         for (k, v) in i["runs"].as_object().unwrap() { println!("{k}: rows={:?} {}", v["ok"].as_array().map(|a| a.len()), v.to_string().chars().take(o.get_usize("show", 600)).collect::<String>()); }
         for (k, v) in i["dist"].as_object().unwrap() { println!("{k}: {}", v.to_string().chars().take(700).collect::<String>()); }
+        // `--opt mergewithout=GroupKeyReduction,PackedGroupKeys,ALL --opt n=5`: the TwoPhase merge over the real partial rows without a rule
+        if let Some(m) = o.get("mergewithout") {
+            let env = env_for(&case).expect("env");
+            for rule in m.split(',') { let v = run_merge_without(&env, sql, o.get_usize("n", 5), rule); println!("merge without {rule}: rows={:?} {}", v["ok"].as_array().map(|a| a.len()), v.to_string().chars().take(o.get_usize("show", 200)).collect::<String>()); }
+        }
         // `--opt memcfgs=mem1,memb`: the same statement through sqlgen's single-node executors (in-memory layouts)
         if let Some(m) = o.get("memcfgs") {
             for c in m.split(',').filter_map(crate::fams::fam_sql::sqlgen::exec::ExecCfg::parse) {
